@@ -47,6 +47,23 @@ fn shadow_from_image(img: &Image) -> ShadowFs {
   fs
 }
 
+/// the operations of one call on wal.log, as the codes of C02.History.call_trace
+fn log_codes(ops: &[verif_trace::FsOp]) -> Vec<u64> {
+  use verif_trace::FsOp;
+  let is_log = |p: &std::path::Path| p.file_name().map(|n| n == "wal.log").unwrap_or(false);
+  let mut out = Vec::new();
+  for op in ops {
+    match op {
+      FsOp::Write { path, .. } if is_log(path) => out.push(1),
+      FsOp::Fsync(p) if is_log(p) => out.push(2),
+      FsOp::SetLen(p, 0) if is_log(p) => out.push(3),
+      FsOp::SetLen(p, _) if is_log(p) => out.push(4),
+      _ => {}
+    }
+  }
+  out
+}
+
 fn next_call(rng: &mut Rng, live: &mut bool, call: &mut u64, ver: &mut u64) -> Api {
   if !*live {
     *live = true;
@@ -102,6 +119,7 @@ fn main() {
     crash_at.dedup();
     let (mut live, mut call, mut ver) = (false, 0u64, 0u64);
     let mut evs: Vec<String> = Vec::new();
+    let mut traces: Vec<String> = Vec::new();
     let mut evs_json: Vec<serde_json::Value> = Vec::new();
     let mut broken = false;
     for k in 0..len {
@@ -117,7 +135,9 @@ fn main() {
           fs.apply(op);
         }
         evs.push(format!("ECall ({})", a.coq()));
-        evs_json.push(serde_json::json!({"call": a.coq(), "result": res.err()}));
+        let codes = log_codes(&ops);
+        traces.push(coq::nlist(&codes));
+        evs_json.push(serde_json::json!({"call": a.coq(), "result": res.err(), "log_ops": codes}));
         continue;
       }
       // crash inside (or right after) this call
@@ -173,6 +193,7 @@ fn main() {
       let c_lit = match &cont { Ok(c) => format!("(Some {})", lit_contents(c)), Err(_) => "None".into() };
       let q_lit = match &queue { Ok(q) => format!("(Some {})", lit_queue(q)), Err(_) => "None".into() };
       evs.push(format!("ECrash ({}) {} {} {} {}", a.coq(), coq::b(whole), coq::b(synced), c_lit, q_lit));
+      traces.push("[]".to_string());
       evs_json.push(serde_json::json!({"crash_in": a.coq(), "after_ops": cut, "of_ops": ops.len(), "whole": whole, "log_synced_in_call": synced,
         "image": desc, "files": img.files.iter().map(|(n, c)| (n.clone(), c.len())).collect::<BTreeMap<_, _>>(),
         "recovered_contents": cont, "recovered_queue": queue}));
@@ -206,10 +227,10 @@ fn main() {
         }
       }
     }
-    cases.push(coq::pair(&coq::list(&evs), &lit_contents(&final_c)));
+    cases.push(coq::pair(&coq::pair(&coq::list(&evs), &lit_contents(&final_c)), &coq::list(&traces)));
     meta.push(serde_json::json!({"case": case_no, "events": evs_json, "final_contents": final_c, "final_error": final_err,
       "nt": true}));
   }
-  let files = write_cases(&args.out, "From SL Require Import Core.Model C02.Model C02.History.", "case02", "check_case_h", &cases, 50);
+  let files = write_cases(&args.out, "From SL Require Import Core.Model C02.Model C02.History.", "case02t", "check_case_t", &cases, 50);
   write_json(&args.out, "cases.json", &serde_json::json!({"files": files, "cases": meta, "distribution": dist}));
 }
